@@ -31,6 +31,7 @@ import (
 //	applyk    apply the oldest pending event of kind Event, if any
 //	incoming  a fresh remote peer opens a real TCP connection for blob (full bitfield if N is odd);
 //	          the scheduler reads its handshake and the incomingHandshakeEvent becomes pending
+//	seed      place the blob in the agent's cache (only while the scheduler has nothing of it open or pending)
 //	remove    start Scheduler.RemoveTorrent(blob) on its own goroutine
 //	tick      advance the clock by Advance seconds and apply a preemption tick
 //	stop      start Scheduler.Stop on its own goroutine
@@ -62,7 +63,7 @@ func gen(t *rapid.T) Case {
 	c.PieceLen = rapid.IntRange(3, 8).Draw(t, "pl")
 	c.SeederTTI = rapid.IntRange(1, 20).Draw(t, "seeder")
 	c.LeecherTTI = rapid.IntRange(1, 20).Draw(t, "leecher")
-	kinds := []string{"download", "download", "feed", "feed", "feed", "apply", "apply", "apply", "apply", "applyc", "applyk", "incoming", "remove", "tick", "tick", "stop"}
+	kinds := []string{"download", "download", "feed", "feed", "feed", "apply", "apply", "apply", "apply", "applyc", "applyk", "incoming", "remove", "tick", "tick", "stop", "seed"}
 	evKinds := []string{"newTorrentEvent", "incomingHandshakeEvent", "incomingConnEvent", "failedIncomingHandshakeEvent", "removeTorrentEvent", "connClosedEvent", "peerRemovedEvent"}
 	// Half of the cases start by driving blob 0 to the point where all pieces are written
 	// and the completion notice is pending, so that the random tail explores what can be
@@ -184,6 +185,24 @@ func run(c Case) pbt.Verdict {
 			}
 			h.Incoming(s.Blob, s.N%2 == 1)
 			note("%d: remote peer connects for blob %d (full bitfield=%v)", si, s.Blob, s.N%2 == 1)
+		case "seed":
+			// the blob arrives in the agent's cache by another way (it is not open in the scheduler)
+			if h.VH.Stopped() || h.VH.Dispatcher(h.Blobs[s.Blob].MetaInfo.InfoHash()) != nil {
+				continue
+			}
+			pendingNew := false
+			for _, e := range h.VH.Pending() {
+				if e.Kind == "newTorrentEvent" && e.InfoHash == h.Blobs[s.Blob].MetaInfo.InfoHash() {
+					pendingNew = true
+				}
+			}
+			if pendingNew {
+				continue // a caller holds a Torrent of it already; writing through a second one is undefined
+			}
+			if err := h.SeedCache(s.Blob); err == nil {
+				classes["blob-placed-in-cache"] = true
+				note("%d: blob %d placed in the cache", si, s.Blob)
+			}
 		case "remove":
 			h.StartRemove(s.Blob)
 			note("%d: remove blob %d", si, s.Blob)
@@ -225,7 +244,11 @@ func run(c Case) pbt.Verdict {
 		case nil:
 			classes["download-ok"] = true
 			if !call.CacheOK {
-				if h.Removals[call.Blob] != call.RemovalsAtStart {
+				// Not judged only when a manual removal of the blob was applied after the call's
+				// own new-torrent event: the download may then have completed and been removed
+				// again before the harness could look at the cache. A removal applied before
+				// that event cannot excuse a success without the blob.
+				if call.RemovalsAtApply >= 0 && h.Removals[call.Blob] != call.RemovalsAtApply {
 					classes["ok-with-concurrent-removal-unjudged"] = true
 					continue
 				}
@@ -257,7 +280,7 @@ func TestProp(t *testing.T) {
 		Assumptions: []string{
 			"schedules are owned at event granularity (the order of serialized events and of the completion notice); interleavings inside one event application are not explored",
 			"a Download still blocked 8 s after the event loop has been stopped with nothing pending can never return (nothing can send to it any more)",
-			"a nil result whose cache check failed is not judged when a manual removal of the same blob was applied during the call",
+			"a nil result whose cache check failed is not judged when a manual removal of the same blob was applied after the call's own new-torrent event was applied",
 		},
 		Parts: []pbt.Part{pbt.NewPart("schedule", 1, gen, run)},
 	})
